@@ -8,12 +8,12 @@ use std::fmt;
 const SPEC: Spec = Spec {
     id: "C17",
     engine: "E-prod (exhaustive enumeration of values through a recording Serializer, and of token sequences x size hints x sign tokens through a token-replay Deserializer; serde_json as a second, real format)",
-    rule: "serialize: every value of +-Dense(S32,3) must emit exactly seq(len = number of base-2^32 digits){u32...} without trailing zero digit (zero = empty sequence), BigInt as tuple(2){i8 sign in -1/0/1, that sequence}; deserialize: every u32 sequence over {0,1,2^32-1} up to the length bound x 5 size-hint behaviours x 2 format kinds (human-readable / compact, as reported by is_human_readable) (x all 256 i8 sign tokens for BigInt) must yield the canonical value it denotes, invalid signs and ill-typed elements must be rejected with an error (no panic); deserialize(serialize(x)) == x through the recorder and through serde_json; non-trivial = value >= 2^32 (serialize) / sequence with trailing zeros, odd length or inconsistent sign (deserialize)",
+    rule: "serialize: every value of +-Dense(S32,3) must emit exactly seq(len = number of base-2^32 digits){u32...} without trailing zero digit (zero = empty sequence), BigInt as tuple(2){i8 sign in -1/0/1, that sequence}; deserialize: every u32 sequence over {0,1,2^32-1} up to the length bound x 10 size-hint behaviours (absent, exact, 0, +5, usize::MAX, 1, 2, 3, n-1, n/2) x 2 format kinds (human-readable / compact, as reported by is_human_readable) (x all 256 i8 sign tokens for BigInt) must yield the canonical value it denotes, invalid signs and ill-typed elements must be rejected with an error (no panic); deserialize(serialize(x)) == x through the recorder and through serde_json; non-trivial = value >= 2^32 (serialize) / sequence with trailing zeros, odd length or inconsistent sign (deserialize)",
     assumptions: &[
         "token sequences are bounded in length; the 3-letter word alphabet {0,1,2^32-1} generates trailing zeros, odd/even lengths and full high halves",
         "two formats: the harness's own recorder/replayer (exact token-level control incl. absent or wrong size hints) and serde_json",
     ],
-    bounds_quick: "S +-Dense(S32,3); D1 u32 sequences of length <= 7 x 5 size hints; D2 length <= 5 x all 256 i8 sign tokens x 5 hints; D3 ill-typed elements; D4 sequences of 63..65, 1000, 262143..262145 and 300001 elements (around the 1 MiB pre-allocation cap) x 3 patterns x 5 hints; J serde_json round trips and JSON texts with trailing zeros",
+    bounds_quick: "S +-Dense(S32,3); D1 u32 sequences of length <= 7 x 10 size hints; D2 length <= 5 x all 256 i8 sign tokens x 10 hints; D3 ill-typed elements; D4 sequences of 63..65, 1000, 262143..262145 and 300001 elements (around the 1 MiB pre-allocation cap) x 3 patterns x 10 hints; J serde_json round trips and JSON texts with trailing zeros",
     bounds_thorough: "S +-Dense(S32,3) + patterns up to 40 digits; D1 length <= 9; D2 length <= 7; D3; J",
     hang_secs: 60,
     probes: None,
@@ -219,8 +219,15 @@ enum Hint {
     Zero,
     Plus5,
     Max,
+    // under-reporting hints (legal: a hint is only a hint) -- a hint-driven fast path must hand over to the
+    // general loop at any element index, odd ones included
+    One,
+    Two,
+    Three,
+    Minus1,
+    Half,
 }
-const HINTS: [Hint; 5] = [Hint::None, Hint::Exact, Hint::Zero, Hint::Plus5, Hint::Max];
+const HINTS: [Hint; 10] = [Hint::None, Hint::Exact, Hint::Zero, Hint::Plus5, Hint::Max, Hint::One, Hint::Two, Hint::Three, Hint::Minus1, Hint::Half];
 
 struct TokDe<'t> {
     toks: &'t [Tok],
@@ -316,6 +323,11 @@ impl<'de, 'a, 't> SeqAccess<'de> for Access<'a, 't> {
             Hint::Zero => Some(0),
             Hint::Plus5 => Some(n + 5),
             Hint::Max => Some(usize::MAX),
+            Hint::One => Some(1),
+            Hint::Two => Some(2),
+            Hint::Three => Some(3),
+            Hint::Minus1 => Some(n.saturating_sub(1)),
+            Hint::Half => Some(n / 2),
         }
     }
 }
@@ -545,7 +557,7 @@ fn body(ctx: &mut Ctx) {
                     ser_value(ctx, &Int::new(true, n.clone()));
                 }
             });
-            ctx.sample(|| format!("v=+-{}: recorded tokens, replay with 5 size hints, serde_json text and round trip", n.to_hex()));
+            ctx.sample(|| format!("v=+-{}: recorded tokens, replay with 10 size hints, serde_json text and round trip", n.to_hex()));
         }
     }
     let syms = [0u32, 1, u32::MAX];
@@ -563,7 +575,7 @@ fn body(ctx: &mut Ctx) {
                 let w: Vec<u32> = idx.iter().map(|&i| syms[i]).collect();
                 both_kinds(ctx, |ctx| de_words(ctx, &w, false));
                 if o % 501 == 0 {
-                    ctx.sample(|| format!("u32 token sequence {:x?} x 5 size hints x declared/undeclared length -> BigUint", w));
+                    ctx.sample(|| format!("u32 token sequence {:x?} x 10 size hints x declared/undeclared length -> BigUint", w));
                 }
             });
         }
@@ -581,7 +593,7 @@ fn body(ctx: &mut Ctx) {
                 let w: Vec<u32> = idx.iter().map(|&i| syms[i]).collect();
                 both_kinds(ctx, |ctx| de_words(ctx, &w, true));
                 if o % 101 == 0 {
-                    ctx.sample(|| format!("(sign, {:x?}) for every i8 sign token x 5 size hints -> BigInt", w));
+                    ctx.sample(|| format!("(sign, {:x?}) for every i8 sign token x 10 size hints -> BigInt", w));
                 }
             });
         }
@@ -651,7 +663,7 @@ fn body(ctx: &mut Ctx) {
                         ctx.viol(format!("serialize long BigUint len={} pattern={}", l, pat), "long value not serialized as exactly its base-2^32 digits", vec![], "its digits".into(), format!("{:?}", r.map_dbg()));
                     }
                 }
-                ctx.sample(|| format!("u32 sequence of {} elements (pattern {}) x 5 size hints x declared/undeclared length", l, pat));
+                ctx.sample(|| format!("u32 sequence of {} elements (pattern {}) x 10 size hints x declared/undeclared length", l, pat));
             }
         }
     }
